@@ -8,6 +8,7 @@ from collections.abc import Callable, Hashable, Iterable, Sequence
 from functools import cached_property
 from typing import TYPE_CHECKING, Any, Generic, Literal, TypeVar, cast
 
+import cftime
 import numpy
 import shapely
 import xarray
@@ -311,8 +312,14 @@ class Convention(abc.ABC, Generic[GridKind, Index]):
                 units = variable.encoding['units']
                 # A time variable must have units of the form '<units> since <epoc>'
                 if 'since' in units:
-                    # The variable must now be a numpy datetime
+                    # The variable must now be a numpy datetime,
+                    # or cftime datetimes for dates that numpy can not represent
                     if variable.dtype.type == numpy.datetime64:
+                        return variable
+                    if (
+                        variable.dtype == object and variable.size > 0
+                        and isinstance(variable.values.flat[0], cftime.datetime)
+                    ):
                         return variable
         raise NoSuchCoordinateError("Could not find time coordinate in dataset")
 
